@@ -273,6 +273,12 @@ pub enum ConfigError {
         cluster_id: String,
         frontend: String,
     },
+    #[error("cluster '{cluster_id}' declares the backend '{backend_id}' at {address} more than once")]
+    DuplicateBackend {
+        cluster_id: String,
+        backend_id: String,
+        address: SocketAddr,
+    },
     #[error("invalid health_check for cluster '{cluster_id}': {reason}")]
     InvalidHealthCheck {
         cluster_id: String,
@@ -2181,6 +2187,15 @@ pub struct BackendConfig {
     pub backend_id: Option<String>,
 }
 
+/// The id a backend gets in `generate_requests`: the explicit `backend_id`, or
+/// `{cluster}-{index}-{address}`.
+fn resolved_backend_id(cluster_id: &str, index: usize, backend: &BackendConfig) -> String {
+    backend
+        .backend_id
+        .clone()
+        .unwrap_or_else(|| format!("{}-{}-{}", cluster_id, index, backend.address))
+}
+
 impl FileClusterConfig {
     pub fn to_cluster_config(
         self,
@@ -2199,6 +2214,22 @@ impl FileClusterConfig {
                 return Err(ConfigError::InvalidHealthCheck {
                     cluster_id: cluster_id.to_owned(),
                     reason,
+                });
+            }
+        }
+        // ConfigState keys a backend by (cluster, backend_id, address) and upserts:
+        // the same pair declared twice would silently collapse into one backend.
+        for (index, backend) in self.backends.iter().enumerate() {
+            let backend_id = resolved_backend_id(cluster_id, index, backend);
+            let duplicate = self.backends[..index].iter().enumerate().any(|(i, other)| {
+                other.address == backend.address
+                    && resolved_backend_id(cluster_id, i, other) == backend_id
+            });
+            if duplicate {
+                return Err(ConfigError::DuplicateBackend {
+                    cluster_id: cluster_id.to_owned(),
+                    backend_id,
+                    address: backend.address,
                 });
             }
         }
